@@ -81,6 +81,18 @@ impl<'a> SendLastStateProofProcess<'a> {
             .collect::<Vec<VerifiableHeader>>();
         let last_n_blocks = self.protocol.last_n_blocks() as usize;
 
+        // The total difficulty of every header is the sum of two peer-supplied values.
+        if let Some(header) = headers
+            .iter()
+            .find(|header| !header.is_total_difficulty_computable())
+        {
+            let errmsg = format!(
+                "total difficulty overflows for block#{}",
+                header.header().number()
+            );
+            return StatusCode::MalformedProtocolMessage.with_context(errmsg);
+        }
+
         trace!(
             "peer {}: last_number: {}, last_hash: {:#x}, headers_count: {}, last_n_config: {last_n_blocks}",
             self.peer_index,
